@@ -1058,6 +1058,7 @@ class PathSens:
         # node -> (fact, payload_fact): assumed result of the (opaque) call at that node
         self.assume = {}
         self._rinfo = {}
+        self._from_impls = None
 
     # facts: dict key=(path, local) -> ('var', idx) | ('const', v) | ('discr_of', key)
 
@@ -1204,6 +1205,23 @@ class PathSens:
             if v[0] == "discr_of" and v[1] == key:
                 del facts[k2]
 
+    def _from_variant(self, src_ty, dst_ty):
+        """Variant index that a same-crate `impl From<src_ty> for dst_ty` always builds (`Self::Usage(err)`), or
+        None: what `?` / `.into()` turn an error of type src_ty into."""
+        if self._from_impls is None:
+            self._from_impls = {}
+            for b in self.sup.crate.bodies:
+                if b.raw.get("impl_trait") == "std::convert::From" and b.name == "from" and b.nargs == 1:
+                    vs = set()
+                    for _, _, k_, p_ in b.whole_defs(0):
+                        if k_ == "assign" and p_["rv"]["k"] == "aggregate" and p_["rv"].get("agg") == "adt":
+                            vs.add(p_["rv"].get("variant_idx"))
+                        else:
+                            vs.add(None)
+                    if len(vs) == 1 and None not in vs:
+                        self._from_impls[(b.local_ty(1), b.local_ty(0))] = vs.pop()
+        return self._from_impls.get((src_ty, dst_ty))
+
     def _replace_info(self, body):
         """(targets, refs) for the `mem::replace(&mut X, v)` / `mem::take(&mut X)` calls of a body whose first
         argument is a fresh exclusive borrow of a plain local X made for that call alone (`r1 = &mut X;
@@ -1326,6 +1344,20 @@ class PathSens:
                     if lab == "call":
                         for i, a in enumerate(t["args"]):
                             self._set_from_operand(f2, (npath, i + 1), path, a)
+                    elif f and self.payloads and COMBINATOR_PAYLOAD.get(f["def"]) and t["args"] and is_place(t["args"][0]) and not t["args"][0]["p"]["pr"]:
+                        # `r.unwrap_or_else(|e| ..)`: the closure's value parameter is the payload of the variant it
+                        # runs on
+                        rk = (path, t["args"][0]["p"]["l"])
+                        rf = facts.get(rk)
+                        pv_ = COMBINATOR_PAYLOAD[f["def"]]
+                        first = 2 if callee.raw["def_kind"] == "Closure" else 1
+                        if rf and rf[0] == "var" and rf[1] == pv_[1]:
+                            pf_ = facts.get(self._pk(rk))
+                            ppf_ = facts.get(self._ppk(rk))
+                            if pf_ is not None:
+                                f2[(npath, first)] = pf_
+                                if ppf_ is not None:
+                                    f2[self._pk((npath, first))] = ppf_
                     out.append((lab, succ, f2))
                     continue
                 # ordinary return edge of an opaque call
@@ -1354,6 +1386,10 @@ class PathSens:
                         f2[self._pk(dkey)] = forced[1]
                     out.append((lab, succ, f2))
                     continue
+                if f and not dest["pr"] and recv is None and run_on is not None and has_may and f["def"].rsplit("::", 1)[-1] in ("map_err", "map", "and_then", "or_else") and "bool" not in f["def"]:
+                    # this edge is "the closure did not run": the receiver held the other variant, which these
+                    # combinators pass on unchanged
+                    f2[dkey] = ("var", 1 - run_on[0])
                 if f and not dest["pr"] and recv is not None and run_on is not None and not (recv == run_on[0]):
                     # the closure does not run: combinators that keep the receiver's variant
                     if f["def"].rsplit("::", 1)[-1] in ("map_err", "map", "or_else", "and_then"):
@@ -1390,6 +1426,12 @@ class PathSens:
                             pf_ = self._operand_fact(facts, path, t["args"][1])[0] if len(t["args"]) > 1 else None
                             if pf_ is not None and pf_[0] in ("var", "const") and self.payloads:
                                 f2[self._pk(dkey)] = pf_
+                if f and not dest["pr"] and f["def"] in ("std::convert::Into::into", "std::convert::From::from") and len(t["args"]) == 1:
+                    a0 = t["args"][0]
+                    sty = body.local_ty(a0["p"]["l"]) if is_place(a0) and not a0["p"]["pr"] else a0.get("ty")
+                    vi = self._from_variant(sty, body.local_ty(dest["l"])) if sty else None
+                    if vi is not None:
+                        f2[dkey] = ("var", vi)
                 if f and not dest["pr"]:
                     d = f["def"]
                     if d == "std::ops::Try::branch" and t["args"]:
@@ -1424,6 +1466,11 @@ class PathSens:
                                 apf = facts.get(self._pk(ak))
                                 if et_a and et_a == et_d and apf is not None:
                                     f2[self._pk(dkey)] = apf
+                                elif et_a and et_d and et_a != et_d:
+                                    # `?` converts through a same-crate From impl that always builds one variant
+                                    vi = self._from_variant(et_a, et_d)
+                                    if vi is not None:
+                                        f2[self._pk(dkey)] = ("var", vi)
                         elif kind == "option":
                             f2[dkey] = ("var", 0)
                     elif d == "std::result::Result::<T, E>::map_err" and self.payloads and len(t["args"]) == 2 and t["args"][1].get("k") == "fn" and recv in (1, None):
